@@ -191,6 +191,13 @@ class GhostDevice(TypeDesc):
     """A DeviceBase seen as two ghost byte streams: rx (what the device will deliver, universally quantified) and tx (what was written)."""
 
 
+class Alias(TypeDesc):
+    """The parameter is the very object another parameter path denotes, e.g. Alias("self._segments[1]")."""
+
+    def __init__(self, path: str):
+        self.path = path
+
+
 class Opaque(TypeDesc):
     """A value the function only passes around."""
 
